@@ -55,7 +55,7 @@ claim("C05",
       "Lean 4 proof (structural induction / iterator invariant; state machine = lexical specification) + differential correspondence + reference-render oracle")
 claim("C04",
       "Lean 4 theorems for the proved part: creation_denotes (GE/Thm/C04Tag.lean): over the tag-level model of generated code + ProcGenWrapper (GE/Model/TagSem.lean: text, "
-      "elements with plain attributes, <block>, wx:if/elif/else chains, wx:for without key, nested freely; expressions abstract), the elements and text nodes that creation "
+      "elements with plain attributes, <block>, wx:if/elif/else chains, wx:for with and without key, nested freely; expressions abstract), the elements and text nodes that creation "
       "builds are, in document order, exactly the ones the template denotes (first truthy branch, body once per list entry with item / index pushed, block = its children); "
       "the model is executable over JSON values and compared with the real compiler + runtime on generated templates x data (corr:tagsem). Also: the wx:if/elif/else branch selector statement is read by JavaScript as c1?1:c2?2:…:0 for all conditions "
       "(if_selector_derives, on top of gen_derives) and dash_to_camel name normalisation facts; models tied by correspondence streams (selector statement "
@@ -86,7 +86,7 @@ claim("C06",
       "(uniq_nodup; fresh_not_used: the search for a free name ends, by pigeonhole), and marking_sound: when the tree marks every position whose key changed, an item "
       "that is not told `true` and reuses an old node reuses the node of its own position (the statement finding D62 violated); (5) update_refines / updates_refine "
       "(GE/Thm/C06Tag.lean): over the tag-level model GE/Model/TagSem.lean (guarded text / attribute rewrites, wx:if nodes updated in place while their branch stays "
-      "selected and replaced otherwise, <block>, lists without key matched by position with per-index subtrees, `true` for a position whose index changed - finding D67), "
+      "selected and replaced otherwise, <block>, lists without key matched by position with per-index subtrees and `true` for a position whose index changed - finding D67 -, lists with wx:key matched by the keys made unique - uniq_nodup, uniq_at - with the tree transformation of RangeListManager.diff), "
       "given sound guards and covering trees (the hypotheses are the statements guard_sound proves at the expression level), after creation and ANY sequence of updates "
       "whose trees cover the successive differences the node tree is, up to node creation times, the tree of a fresh creation with the last data; the model runs on JSON "
       "values and is compared with the real runtime over generated histories incl. which nodes are reused (corr:tagsem). The remaining tag / list level (if / for / template / slot bookkeeping, "
